@@ -1274,9 +1274,12 @@ class TupleParser:
                 INDICATION (true | false) "false"
         """
 
+        # The 'ANY' attribute is not defined in the DTD, but is tolerated
+        # because pywbem itself generates it for qualifier declarations whose
+        # scopes have an 'ANY' item with value False.
         self.check_node(tup_tree, 'SCOPE', (),
                         ('CLASS', 'ASSOCIATION', 'REFERENCE', 'PROPERTY',
-                         'METHOD', 'PARAMETER', 'INDICATION'), ())
+                         'METHOD', 'PARAMETER', 'INDICATION', 'ANY'), ())
 
         # Even though XML attributes do not preserve order, we store the
         # scopes in an ordered dict to avoid a warning further down the
